@@ -37,7 +37,8 @@ type c17run struct {
 	e2e    bool              // ten inputs with 2048 distinct words each: rebuild the repository with the output
 	canon  bool              // the canonical lists
 	shape  string
-	fault  map[string]int // file base name -> the first download of it is cut after this many body bytes
+	fault  map[string]int  // file base name -> the first download of it is cut after this many body bytes
+	moved  map[string]bool // file base name -> its path answers 301 to /moved/<name>.txt; the other names under /moved/ hold decoys
 }
 
 // httpShapes: ways in which the upstream stand-in dresses the same body.
@@ -265,6 +266,30 @@ func (e *Env) c17runs() []*c17run {
 		}
 		runs = append(runs, run)
 	}
+	// moved runs: ONE list (the first, a middle or the last in file-name order; or three) has moved
+	// and its path answers 301 to another directory, where the other names hold decoys (the
+	// words of another list, reversed). Following the redirect for that file is right; taking the
+	// new directory for the other files is not.
+	names := append([]string(nil), ref.Files[:]...)
+	sort.Strings(names)
+	for k := 0; k < e.pick(4, 12); k++ {
+		base := runs[0]
+		if k%2 == 1 {
+			base = runs[len(runs)-1-nf-(k/2)%8]
+		}
+		run := &c17run{name: "moved-" + itoa(k) + "-of-" + base.name, inputs: base.inputs, canon: base.canon, shape: "one-list-moved", moved: map[string]bool{}}
+		switch k % 4 {
+		case 0:
+			run.moved[names[0]] = true
+		case 1:
+			run.moved[names[len(names)/2]] = true
+		case 2:
+			run.moved[names[len(names)-1]] = true
+		case 3:
+			run.moved[names[1]], run.moved[names[4]], run.moved[names[7]] = true, true, true
+		}
+		runs = append(runs, run)
+	}
 	return runs
 }
 
@@ -353,7 +378,28 @@ func checkC17(e *Env) {
 			rmu.Lock()
 			reqLog = append(reqLog, rq.Method+" "+rq.URL.Path)
 			rmu.Unlock()
+			if strings.HasPrefix(rq.URL.Path, "/moved/") && strings.HasSuffix(rq.URL.Path, ".txt") && run.moved != nil {
+				nm := strings.TrimSuffix(strings.TrimPrefix(rq.URL.Path, "/moved/"), ".txt")
+				w.Header().Set("Content-Type", "text/plain; charset=utf-8")
+				if b, ok := run.inputs[nm]; ok && run.moved[nm] {
+					io.WriteString(w, b)
+				} else {
+					// a decoy: the lines of the alphabetically next list in reverse order
+					other := ref.Files[(len(nm)+3)%len(ref.Files)]
+					ls := nonEmptyLines(run.inputs[other])
+					for i := len(ls) - 1; i >= 0; i-- {
+						io.WriteString(w, ls[i]+"\n")
+					}
+					obs.Inc("decoy_files_served_from_the_moved_directory")
+				}
+				return
+			}
 			name := strings.TrimSuffix(strings.TrimPrefix(rq.URL.Path, upstreamPath), ".txt")
+			if run.moved[name] && strings.HasPrefix(rq.URL.Path, upstreamPath) {
+				obs.Inc("redirects_served")
+				http.Redirect(w, rq, "/moved/"+name+".txt", http.StatusMovedPermanently)
+				return
+			}
 			body, ok := run.inputs[name]
 			if !ok || !strings.HasPrefix(rq.URL.Path, upstreamPath) || !strings.HasSuffix(rq.URL.Path, ".txt") {
 				http.NotFound(w, rq)
@@ -460,6 +506,18 @@ func checkC17(e *Env) {
 			want = append(want, "GET "+upstreamPath+f+".txt")
 		}
 		sort.Strings(want)
+		if len(run.moved) > 0 {
+			// the redirected requests of the moved files are expected
+			var keep []string
+			for _, g := range got {
+				nm := strings.TrimSuffix(strings.TrimPrefix(g, "GET /moved/"), ".txt")
+				if strings.HasPrefix(g, "GET /moved/") && run.moved[nm] {
+					continue
+				}
+				keep = append(keep, g)
+			}
+			got = keep
+		}
 		if len(run.fault) > 0 {
 			// repeated requests are legitimate after a cut download
 			seen := map[string]bool{}
@@ -631,7 +689,7 @@ func checkC17(e *Env) {
 	e.WriteEvidence("exploration", map[string]any{
 		"evaluations":                 pairs,
 		"distinct_nontrivial":         dist.Len(),
-		"rule":                        "a case is one (target file, upstream body) pair; one run of the tool (built from the tree with the verif fetch-redirect hook, run in a scratch directory against a loopback HTTP server operated by the parent) yields ten pairs; inputs: the canonical lists, and seeded LF-separated files of letters and combining marks (Latin, Greek, Cyrillic, Hebrew, Arabic, Devanagari, Thai, Hangul jamo and syllables, kana, CJK incl. plane 2, ligatures, full-width and mathematical letters; marks also leading, doubled and in non-canonical order; Go keywords; words up to 3000 letters) with 0, 1, 2, 17, 300, 2048 and 5000 words, with and without trailing newline and with blank lines at start, middle, end and in runs; every generated file is parsed and type-checked (all ten as one package), its literals compared byte-for-byte with the non-empty input lines, its variable name compared with the committed file's, the request log compared with the ten expected paths; runs with ten 2048-word inputs are additionally rebuilt into a scratch copy of the repository whose API must emit, per language, the words served under that language's file name (when it does not, the same words written into the package by the harness are observed as a control: the tool is blamed only when the control is clean); the upstream stand-in varies how it dresses the same bytes from run to run (Content-Type with or without a charset, octet-stream, no Content-Type, gzip content encoding, small chunks, an upstream that honours conditional requests and whose files are older than anything on the local disk); fault runs in which the first download of one to three files is cut inside the body (full Content-Length declared): a tool that gives up is not judged, one that reports success is judged like any other run; non-trivial = every pair; distinct by (file, body)",
+		"rule":                        "a case is one (target file, upstream body) pair; one run of the tool (built from the tree with the verif fetch-redirect hook, run in a scratch directory against a loopback HTTP server operated by the parent) yields ten pairs; inputs: the canonical lists, and seeded LF-separated files of letters and combining marks (Latin, Greek, Cyrillic, Hebrew, Arabic, Devanagari, Thai, Hangul jamo and syllables, kana, CJK incl. plane 2, ligatures, full-width and mathematical letters; marks also leading, doubled and in non-canonical order; Go keywords; words up to 3000 letters) with 0, 1, 2, 17, 300, 2048 and 5000 words, with and without trailing newline and with blank lines at start, middle, end and in runs; every generated file is parsed and type-checked (all ten as one package), its literals compared byte-for-byte with the non-empty input lines, its variable name compared with the committed file's, the request log compared with the ten expected paths; runs with ten 2048-word inputs are additionally rebuilt into a scratch copy of the repository whose API must emit, per language, the words served under that language's file name (when it does not, the same words written into the package by the harness are observed as a control: the tool is blamed only when the control is clean); the upstream stand-in varies how it dresses the same bytes from run to run (Content-Type with or without a charset, octet-stream, no Content-Type, gzip content encoding, small chunks, an upstream that honours conditional requests and whose files are older than anything on the local disk); runs in which one or three lists have moved (their paths answer 301 to another directory whose other names hold decoys); fault runs in which the first download of one to three files is cut inside the body (full Content-Length declared): a tool that gives up is not judged, one that reports success is judged like any other run; non-trivial = every pair; distinct by (file, body)",
 		"samples":                     smp.List(),
 		"tool_runs":                   obs.Get("tool_runs"),
 		"observations":                obs.Map(),
